@@ -1,5 +1,6 @@
 from vf import Q
-from conc_common import BASE, PT, REDIR_PT, TFLAGS, caps, roles, TRUSTED
+from conc_common import BASE, PT, REDIR_PT, TFLAGS, caps, roles, TRUSTED, ensure_instrument_units
+ensure_instrument_units()     # vf.Q(instrument_units=[...]) - no-op once lib/vf.py has the hook
 
 META = {
  "assumptions": [
@@ -10,6 +11,11 @@ META = {
   "for the sync model (volatile store + __sync_synchronize, not expressible in C11 terms) the same harness runs under CBMC's x86-TSO memory model",
   "spin loop unwound 3 times WITHOUT unwinding assertion: a failed CAS iteration only reads (stutter step), executions with more spins "
   "are equivalent to executions with fewer",
+  "spin_loop_abstraction_*: the unit object is instrumented with goto-instrument --havoc-loops (loop state arbitrary at the loop head, one iteration): "
+  "over-approximation, sound for safety ('lock returns only after an atomic RMW that saw the word free'), termination not claimed; paths on which "
+  "the last CAS failed (the redirected back edge) are discarded",
+  "mutex_trylock_after_cond_release: the blocking point of pthread_cond_wait is emulated sequentially (model releases the platform mutex, a second "
+  "context runs through the public API, model re-acquires)",
   "objects are allocated before the first thread starts (p_malloc0 supplied by the harness: typed static storage)",
   "CBMC's native threads abort ('pointer handling for concurrency is unsound') on any pointer-typed shared write after the first spawn: on a tree "
   "whose lock code writes pointers inside lock/trylock/unlock the thr_* queries end INCONCLUSIVE (reported as such, never as a pass); that class is "
@@ -119,8 +125,27 @@ def nested(kind):
                      "preemption_depth": 1, "spin_loop_iterations": 3})
 
 
+def loopabs(kind):
+    """spin loop of p_spinlock_lock over-approximated by goto-instrument --havoc-loops (arbitrary loop state, one iteration)"""
+    return Q("spin_loop_abstraction_%s" % kind, "harness/C01_loopabs.c", units=["src/pspinlock-%s.c" % kind], models=BASE,
+             defs=["CA_RMW_GHOST"], includes=["models/conc_atomics.h"], instrument_units=["--havoc-loops"], unwind=3,
+             funcs=["p_spinlock_new", "p_spinlock_lock"], timeout=300,
+             bounds={"loop": "havocked: every object written in the loop (lock word, expected-value temporary, counters) arbitrary at the loop head, "
+                             "one iteration executed; = any number of earlier iterations and any interference (over-approximation)",
+                     "not_claimed": "termination; an exit taken although the last attempt failed (decided by thr_* / nested_*)"})
+
+
+def cond_release():
+    """C03's public-API release query registered here too: trylock must succeed on a mutex that was last released by a condition wait"""
+    return Q("mutex_trylock_after_cond_release", "harness/C03_release.c", units=["src/pcondvariable-posix.c", "src/pmutex-posix.c"], models=PT,
+             defs=caps(2, nmtx=2, ncv=2), hdefs=["VM_CW_HOOK=other_context", "VM_CW_RELEASE"], includes=REDIR_PT, unwind=3,
+             funcs=MTX_FUNCS + ["p_cond_variable_wait", "p_cond_variable_signal"], timeout=300,
+             bounds={"contexts": "A (waiter, two consecutive waits) + B (run to completion at A's blocking point through the public API)",
+                     "mutexes": 2, "conditions": 2})
+
+
 def queries(tier):
-    qs = [nested("c11"), nested("sync"), nested("sim"), nested("mutex")]
+    qs = [nested("c11"), nested("sync"), nested("sim"), nested("mutex"), loopabs("c11"), loopabs("sync"), cond_release()]
     qs += [seq("seq_trylock_c11", "c11"), seq("seq_trylock_sync", "sync"), seq("seq_trylock_sim", "sim"), seq("seq_trylock_mutex", "mutex"),
           seq("seq_mutex_return_codes", "mutex", rc=True)]
     if tier == "quick":
